@@ -41,7 +41,7 @@ def lexDec (j : Json) : R Json := do
   | "gDay" => pure (match decDay (collapseWs t) with | some (d, tz) => Json.arr #[jNat d, jTz tz] | none => Json.null)
   | "gMonthDay" => pure (match decMonthDay (collapseWs t) with | some (m, d, tz) => Json.arr #[jNat m, jNat d, jTz tz] | none => Json.null)
   | "tz" => pure (match parseTz t with | some tz => Json.mkObj [("tz", jTz tz)] | none => Json.null)
-  | "base64" => pure (match Zeep.Base64.decode t with | some b => jList jNat b | none => Json.null)
+  | "base64" => pure (match Zeep.Base64.decodeLenient t with | some b => jList jNat b | none => Json.null)
   | "preserve" => pure (jStrL (applyFacet .preserve t))
   | "replace" => pure (jStrL (applyFacet .replace t))
   | "collapse" => pure (jStrL (applyFacet .collapse t))
